@@ -39,6 +39,7 @@ def _gen_election(rng, family=None, maxc=7, maxb=9):
     if family == 'multisurplus': return gen_multisurplus(rng)
     if family == 'cotie': return gen_cotie(rng)
     if family == 'cochain': return gen_cochain(rng)
+    if family == 'zeros': return gen_zeros(rng)
     if family == 'exactquota4': return gen_exact_quota(rng, 4)
     if family == 'exactquota5': return gen_exact_quota(rng, 5)
     if family == 'exactquota9': return gen_exact_quota(rng, 9)
@@ -165,6 +166,22 @@ def gen_cochain(rng):
         k = rng.choice([10 ** 9, 10 ** 12, 10 ** 9 + 7])
         lines = [(mu * k, r) for mu, r in lines]
     return _finish(rng, n, s, lines)
+
+def gen_zeros(rng):
+    """fewer candidates with any support than seats, and a crowd of candidates nobody ranks first (or at all): the
+    exclusions of zero-vote candidates (singly, or together under wigm's defeat_batch=zero) must leave enough to fill the seats"""
+    v = rng.randint(1, 3); short = rng.randint(0, 2); s = v + short
+    z = rng.randint(max(2, short + 1), 2 * short + 3)
+    n = v + z
+    lines = []
+    for c in range(1, v + 1):
+        tail = rng.sample([x for x in range(1, n + 1) if x != c], rng.randint(0, 2)) if rng.random() < 0.4 else []
+        lines.append((rng.randint(1, 12), [c] + tail))
+    for _ in range(rng.randint(0, 2)):
+        lines.append((rng.randint(1, 3), [rng.randint(1, v)] + rng.sample(range(v + 1, n + 1), rng.randint(0, min(2, z)))))
+    while sum(m for m, r in lines) < n: lines.append((n, [rng.randint(1, v)]))
+    e = _finish(rng, n, s, lines); e['family'] = 'zeros'
+    return e
 
 def gen_cotie(rng):
     """a solid coalition whose members are exactly tied (for last place, usually) when the first exclusion is due:
